@@ -612,6 +612,9 @@ func (r *h2run) abandoned(prev, fresh *h2conn, tok string) *h2fail {
 	if prev.ga0 && !prev.ga0Known {
 		// the pool had registered the GOAWAY(last-stream-id 0)
 		prev.goaway, prev.replaced, prev.ga0 = true, true, false
+		if r.cur == prev {
+			r.cur = nil // released from the slot; the caller puts the fresh connection there if it is still open
+		}
 		r.class("goaway0-honoured")
 		return nil
 	}
@@ -1119,6 +1122,9 @@ var h2Minimal = []H2History{
 	{MaxReq: 3, Ops: []H2Op{{K: "lease"}, {K: "reset"}, {K: "late"}, {K: "lease"}, {K: "uptcprst"}, {K: "refuse"}, {K: "lease"}, {K: "accept"}, {K: "lease"}, {K: "refuse-rst"}, {K: "upclose"}, {K: "lease"}}},
 	// a refused lease opens the replacement, which then gets GOAWAY with last-stream-id 0 (sigH2GoAway0)
 	{MaxReq: 2, Ops: []H2Op{{K: "lease"}, {K: "lease"}, {K: "goaway"}, {K: "lease"}, {K: "goaway"}, {K: "reply"}, {K: "lease"}}},
+	// ... and is replaced by a connection the upstream resets at once: the slot is empty, pool.Close() has nothing to close
+	// (the model kept the go-away connection in the slot there: false alarm of the thorough tier, corrected)
+	{MaxReq: 2, Ops: []H2Op{{K: "lease"}, {K: "lease"}, {K: "goaway"}, {K: "lease"}, {K: "goaway"}, {K: "refuse-rst", A: 1}, {K: "lease", A: 1}, {K: "close", A: 2}}},
 }
 
 // TestPropH2Pool: fixed minimal histories, then generated ones; oracle after every step.
